@@ -793,7 +793,26 @@ func constLeaves(t *Term, limit int) int {
 	return a + b
 }
 
+// distUnary pushes a unary operation through an ite tree whose leaves are all constants
+// (the operation then folds at the leaves). ok is false when x is not such a tree.
+func (c *Ctx) distUnary(x *Term, f func(*Term) *Term) (*Term, bool) {
+	if x.op != OpIte || constLeaves(x, 512) < 0 {
+		return nil, false
+	}
+	var rec func(t *Term) *Term
+	rec = func(t *Term) *Term {
+		if t.op == OpIte {
+			return c.Ite(t.args[0], rec(t.args[1]), rec(t.args[2]))
+		}
+		return f(t)
+	}
+	return rec(x), true
+}
+
 func (c *Ctx) FNeg(x *Term) *Term {
+	if r, ok := c.distUnary(x, c.FNeg); ok {
+		return r
+	}
 	if x.IsConst() {
 		if x.sort.K == KF32 {
 			return c.mk(OpConst, SF32, x.val^(1<<31), 0, 0, "")
@@ -807,6 +826,9 @@ func (c *Ctx) FIsNaN(x *Term) *Term {
 	if x.IsConst() {
 		return c.Bool(math.IsNaN(fbits(x)))
 	}
+	if r, ok := c.distUnary(x, c.FIsNaN); ok {
+		return r
+	}
 	return c.mk(OpFIsNaN, SBool, 0, 0, 0, "", x)
 }
 
@@ -816,6 +838,9 @@ func (c *Ctx) FConv(x *Term, to Sort) *Term {
 	}
 	if x.IsConst() {
 		return c.fconst(to, fbits(x))
+	}
+	if r, ok := c.distUnary(x, func(t *Term) *Term { return c.FConv(t, to) }); ok {
+		return r
 	}
 	return c.mk(OpFConv, to, 0, 0, 0, "", x)
 }
@@ -833,6 +858,9 @@ func (c *Ctx) IntToF(x *Term, signed bool, to Sort) *Term {
 			return c.F32Const(float32(x.val))
 		}
 		return c.F64Const(float64(x.val))
+	}
+	if r, ok := c.distUnary(x, func(t *Term) *Term { return c.IntToF(t, signed, to) }); ok {
+		return r
 	}
 	if signed {
 		return c.mk(OpSToF, to, 0, 0, 0, "", x)
@@ -861,6 +889,9 @@ func (c *Ctx) FToInt(x *Term, signed bool, w int) *Term {
 			v = uint64(f)
 		}
 		return c.BVConst(v, w)
+	}
+	if r, ok := c.distUnary(x, func(t *Term) *Term { return c.FToInt(t, signed, w) }); ok {
+		return r
 	}
 	if signed {
 		return c.mk(OpFToS, BV(w), 0, 0, 0, "", x)
@@ -1027,6 +1058,27 @@ func popcount(x uint64) int { return bits.OnesCount64(x) }
 
 // FUnary builds floor/ceil/trunc/round (mode 0..3), abs (4) and sqrt (5) on a symbolic float.
 func (c *Ctx) FUnary(mode int, x *Term) *Term {
+	if x.IsConst() {
+		f := fbits(x)
+		switch mode {
+		case 0:
+			f = math.Floor(f)
+		case 1:
+			f = math.Ceil(f)
+		case 2:
+			f = math.Trunc(f)
+		case 3:
+			f = math.Round(f)
+		case 4:
+			f = math.Abs(f)
+		case 5:
+			f = math.Sqrt(f)
+		}
+		return c.fconst(x.sort, f)
+	}
+	if r, ok := c.distUnary(x, func(t *Term) *Term { return c.FUnary(mode, t) }); ok {
+		return r
+	}
 	switch mode {
 	case 4:
 		return c.mk(OpFAbs, x.sort, 0, 0, 0, "", x)
